@@ -1,4 +1,6 @@
 (* C13 — everything Property.v uses: Lemmas1 (frames, Core through the session steps), Lemmas2 (undo after do, congruences),
    Lemmas3 (stack bounds, undo/redo inverse laws, history chain), Lemmas4 (history replay),
-   Lemmas5 (the stack bookkeeping refines the text translated from command.py; StackProof.v holds that text's own laws). *)
-From GV Require Export C13.Lemmas1 C13.Lemmas2 C13.Lemmas3 C13.Lemmas4 C13.StackProof C13.Lemmas5.
+   Lemmas5 (the stack bookkeeping refines the text translated from command.py; StackProof.v holds that text's own laws),
+   GenEquiv1-3, GenEquiv (the commands translated from command.py / edit_subset_mode.py make the steps of the hand model; the theorems on them). *)
+From GV Require Export C13.Lemmas1 C13.Lemmas2 C13.Lemmas3 C13.Lemmas4 C13.StackProof C13.Lemmas5
+  C13.GenEquiv1 C13.GenEquiv2 C13.GenEquiv3 C13.GenEquiv.
